@@ -22,13 +22,14 @@ from . import spec as S
 
 
 class LoopSpec:
-    def __init__(self, inv, types=None, decreases=None):
+    def __init__(self, inv, types=None, decreases=None, axioms=None):
         self.inv, self.types, self.decreases = inv, types or {}, decreases
+        self.axioms = axioms        # v -> list of z3 facts: INSTANCES of the definitional axioms of spec functions
 
 
 class Case:
     def __init__(self, label, params, requires=None, ensures=None, raises=None, loops=None, exact_integer=False,
-                 must_return=None, result_name="result", ghost=None, max_paths=400):
+                 must_return=None, result_name="result", ghost=None, max_paths=400, axioms=None):
         self.label, self.params = label, params
         self.requires, self.ensures = requires, ensures
         self.raises = raises or {}
@@ -37,6 +38,7 @@ class Case:
         self.must_return = must_return
         self.ghost = ghost
         self.max_paths = max_paths
+        self.axioms = axioms        # (old, result, new) -> list of z3 facts (instances of spec-function axioms)
 
 
 class FnContract:
@@ -116,6 +118,9 @@ def verify_case(fc: FnContract, case: Case, timeout_ms=10000, budget_s=240):
                 if outcome == "return":
                     stats["returning_paths"] += 1
                     if case.ensures is not None:
+                        if case.axioms is not None:
+                            for ax in case.axioms(ns_old, value, ns_new):
+                                ctx.assume(ax)
                         goal = case.ensures(ns_old, value, ns_new)
                         ctx.prove(S.to_z3(goal), "post")
                     if case.exact_integer and ctx.float_ops:
@@ -173,7 +178,7 @@ def replay_case(fc: FnContract, case: Case, model):
     try:
         if case.requires is not None and not S.truth(case.requires(NS(args))):
             return dict(confirmed=False, note="counter-model violates the precondition when evaluated natively")
-        result = f(*[args[p] for p in case.params])
+        result = f(*[args[p] for p in case.params if case.params[p].kind != "classref"])
     except Exception as ex:  # pylint: disable=broad-except
         name = type(ex).__name__
         allowed = case.raises.get(name)
